@@ -66,7 +66,7 @@ func setupTree(root string) {
 
 // enumerate valid histories up to depth (every op applicable when it is performed)
 func histories(depth int) [][]fsops.Op {
-	alpha := fsops.Alphabet(dirs, []string{"d1"})
+	alpha := fsops.Alphabet(dirs, []string{"d1", "d0"})
 	var out [][]fsops.Op
 	root := filepath.Join(scratch, "enum")
 	var rec func(cur []fsops.Op)
@@ -139,6 +139,7 @@ func scenario(h []fsops.Op, eager bool, preempt int) *explore.Scenario {
 		paths, dirSet := configured(root)
 		var obs1, obs2 dirmodel.Observation
 		var applyErr error
+		var probed, probeSeen []string
 		in := &explore.Instance{Names: []string{"main"}}
 		in.Threads = []func(){func() {
 			cache, _ := cdi.NewCache(cdi.WithSpecDirs(paths...))
@@ -152,13 +153,36 @@ func scenario(h []fsops.Op, eager bool, preempt int) *explore.Scenario {
 			obs1 = dirmodel.Observe(cache)
 			sched.Quiesce("first queries done")
 			obs2 = dirmodel.Observe(cache)
+			// probe: the cache must still be watching every configured directory that exists now
+			for _, d := range dirs {
+				if _, err := os.Stat(filepath.Join(root, d)); err == nil {
+					_ = vfs.WriteFile(filepath.Join(root, d, "probe.json"), []byte(`{"cdiVersion":"0.5.0","kind":"probe.org/`+d+`","devices":[{"name":"p","containerEdits":{"env":["P=1"]}}]}`), 0o644)
+					probed = append(probed, "probe.org/"+d+"=p")
+				}
+			}
+			sched.Quiesce("probes written")
+			_ = cache.ListDevices()
+			sched.Quiesce("probe query")
+			probeSeen = cache.ListDevices()
 		}}
 		in.Check = func(e *sched.Exec) (string, string, any) {
 			if applyErr != nil {
 				return "harness-op-failed", "a history operation failed in the model: " + applyErr.Error(), nil
 			}
+			for _, d := range dirs {
+				_ = os.Remove(filepath.Join(root, d, "probe.json"))
+			}
 			fresh, _ := cdi.NewCache(cdi.WithSpecDirs(paths...), cdi.WithAutoRefresh(false))
 			fo := dirmodel.Observe(fresh)
+			for _, p := range probed {
+				seen := false
+				for _, q := range probeSeen {
+					seen = seen || q == p
+				}
+				if !seen {
+					return "not-converged:probe-not-seen:after-" + h[len(h)-1].Kind, fmt.Sprintf("after %v and quiescence a Spec written to a configured directory (%s) never becomes visible: the directory is no longer watched", h, p), nil
+				}
+			}
 			if ok, what, detail := same(obs2, fo, dirSet); !ok {
 				return "not-converged:" + what + ":after-" + h[len(h)-1].Kind, fmt.Sprintf("after %v and quiescence the second round of queries returns %s", h, detail), nil
 			}
@@ -522,7 +546,7 @@ func main() {
 	r.Rule = fmt.Sprintf("histories = every applicable sequence of 1..%d operations over %d operations (write in place, temp+rename, move in, rename away, rename to a non-Spec name, unlink, hard link, symlink, empty create on d0/d1 with valid/invalid contents; mkdir / rm -r of the initially missing d1): %d histories; "+
 		"for each, every pacing of {history thread, fsnotify reader, cache watcher goroutine} with <=%d preemptions under an eager and a lazy default order; evaluations = complete executions, states/transitions = choice points. "+
 		"Oracle: after quiescence the second round of queries (devices, definitions, files in error) equals a fresh manual cache on the final tree. traces_validated_against_impl = histories whose model event stream equals the real fsnotify's (barrier after every operation) plus passing histories replayed on the unmodified build. "+
-		"non-trivial = every execution", depth, len(fsops.Alphabet(dirs, []string{"d1"})), len(idx), preempt)
+		"non-trivial = every execution", depth, len(fsops.Alphabet(dirs, []string{"d1", "d0"})), len(idx), preempt)
 	r.Assumptions = []string{"inotify queue overflow and renaming a Spec directory itself are out of bounds", "directory-level monitoring errors are not compared",
 		"a violation that appears under a default schedule must be confirmed by a 3 s real replay on the unmodified build, otherwise the run is an infrastructure error"}
 	os.RemoveAll(scratch)
